@@ -719,6 +719,15 @@ func (p *Prog) ComputeInitOnly() {
 			p.InitOnly[k] = true
 		}
 	}
+	// a field key declared `writers <key>` with no listed function is written on fresh objects only
+	// (an obligation at every store), so it gets the same frame axiom
+	if p.Contracts != nil {
+		for k, fns := range p.Contracts.Writers {
+			if len(fns) == 0 && strings.HasPrefix(k, "F|") {
+				p.InitOnly[k] = true
+			}
+		}
+	}
 	// map types whose maps are only ever filled by the function that created them (or that created the
 	// object holding them): an existing map of such a type is not changed by a call or a loop
 	mapSeen := map[string]bool{}
